@@ -1,12 +1,22 @@
 import B6.Model.Tags
 import B6.Spec.OrderedMap
+import B6.Lemmas.Tags
 /-!
 # C39 — Tag lists behave as ordered maps
 
-Theorems about `B6.Model.Tags` (the model of `b6.Tags` in world.go) against `B6.Spec.OrderedMap`.
+Theorems about `B6.Model.Tags` (the model of `b6.Tags` in world.go, with `RemoveTag`'s in-loop deletion
+on a Go-slice model) against `B6.Spec.OrderedMap`, for every key-distinct list, every key / key list
+(present, absent, repeated) and every operation sequence.  Tag values are opaque strings.
+
+Outside the property's domain (lists with a repeated key) `RemoveTag` as written can panic or leave a
+matching tag behind: `remove_tag_duplicate_panics_counterexample`,
+`remove_tag_duplicate_survives_counterexample` — these are facts about the code that the property's
+hypothesis excludes, not violations of it.
 -/
 namespace B6.Props.C39
-open B6.Model.Tags B6.Spec.OrderedMap
+open B6.Model.Tags B6.Spec.OrderedMap B6.Lemmas.Tags
+
+/-! ## lookup -/
 
 /-- `Get` returns the value of the (first) tag with the key — for every list. -/
 theorem get_spec (t : Tags) (k : String) : B6.Model.Tags.get t k = lookup t k := by
@@ -19,7 +29,227 @@ theorem get_spec (t : Tags) (k : String) : B6.Model.Tags.get t k = lookup t k :=
     · have hb : (k' == k) = false := by simpa using h
       simp only [B6.Model.Tags.get, lookup, h, ↓reduceIte, List.find?_cons, hb, ih]
 
-/-- `MergeFrom` makes the receiver equal to the other list; `Clone` is the identity on values. -/
+example : B6.Model.Tags.get [("a", "1"), ("b", "2")] "b" = some "2" := by decide
+
+/-! ## merge / clone -/
+
+/-- `MergeFrom` makes the receiver equal to the other list. -/
 theorem merge_from_spec (t other : Tags) : mergeFrom t other = other := rfl
+
+/-- `Clone` is the identity on values. -/
+theorem clone_spec (t : Tags) : clone t = t := rfl
+
+/-! ## set -/
+
+/-- `ModifyOrAddTag` on a key-distinct list is the ordered map's `set`: the value is replaced in place
+when the key is present (returning `true` and the previous value), else the tag is appended (returning
+`false` and the empty string, as the Go code does). -/
+theorem modify_or_add_spec (t : Tags) (tag : Tag) (hd : Distinct t) :
+    modifyOrAddTag t tag =
+      match lookup t tag.1 with
+      | some old => (B6.Spec.OrderedMap.set t tag, true, old)
+      | none => (B6.Spec.OrderedMap.set t tag, false, "") := by
+  unfold modifyOrAddTag
+  cases hm : B6.Model.Tags.modify t tag with
+  | none =>
+    have hall := modify_none_iff.mp hm
+    have hl : lookup t tag.1 = none := lookup_none_iff.mpr hall
+    have ha : t.any (·.1 == tag.1) = false := any_false_iff.mpr hall
+    simp only [hl, B6.Spec.OrderedMap.set, ha, addTag]
+    rfl
+  | some r =>
+    obtain ⟨t', old⟩ := r
+    obtain ⟨h1, h2⟩ := modify_some_spec hd hm
+    have ha : t.any (·.1 == tag.1) = true := by
+      cases hany : t.any (·.1 == tag.1) with
+      | true => rfl
+      | false =>
+        have := lookup_none_iff.mpr (any_false_iff.mp hany)
+        rw [h2] at this
+        cases this
+    simp only [h2, B6.Spec.OrderedMap.set, ha, ↓reduceIte, h1]
+
+example : Distinct [("a", "1"), ("b", "2")] ∧
+    modifyOrAddTag [("a", "1"), ("b", "2")] ("b", "9") = ([("a", "1"), ("b", "9")], true, "2") ∧
+    modifyOrAddTag [("a", "1"), ("b", "2")] ("c", "9") = ([("a", "1"), ("b", "2"), ("c", "9")], false, "") := by
+  decide
+
+/-! ## remove one key -/
+
+/-- `RemoveTag` on a slice header with **any spare capacity** whose visible part has distinct keys:
+never panics, the visible part becomes the ordered map's `remove`, the backing array keeps its size. -/
+theorem remove_tag_slice_spec (s : GoSlice) (k : String) (hlen : s.len ≤ s.back.length)
+    (hd : Distinct s.toList) :
+    ∃ s', s.removeTag k = some s' ∧ s'.toList = remove s.toList k
+      ∧ s'.back.length = s.back.length ∧ s'.len ≤ s'.back.length := by
+  obtain ⟨back, len⟩ := s
+  simp only [GoSlice.toList] at hd
+  simp only at hlen
+  have hsplit : back = [] ++ back.take len ++ back.drop len := by simp
+  have hl : len = ([] : List Tag).length + (back.take len).length := by
+    simp [List.length_take, Nat.min_eq_left hlen]
+  obtain ⟨s', h1, h2, h3, h4⟩ :=
+    removeLoop_spec k (back.take len) [] (back.drop len) len (by simp [List.length_take]; omega)
+      (by simp) hd
+  refine ⟨s', ?_, ?_, ?_, h4⟩
+  · unfold GoSlice.removeTag
+    simp only
+    rw [← hl, ← hsplit] at h1
+    simpa using h1
+  · simp only [GoSlice.toList, remove, List.nil_append] at h2 ⊢
+    exact h2
+  · rw [h3, ← hsplit]
+
+/-- `RemoveTag` on a key-distinct list removes exactly the tag with that key, keeps all others in
+order, and never panics (the stale copy the in-place shift leaves in the backing array is never matched). -/
+theorem remove_tag_spec (t : Tags) (k : String) (hd : Distinct t) :
+    removeTag t k = some (remove t k) := by
+  have hd' : Distinct (GoSlice.ofList t).toList := by simpa [GoSlice.ofList, GoSlice.toList] using hd
+  obtain ⟨s', h1, h2, _, _⟩ := remove_tag_slice_spec (GoSlice.ofList t) k (by simp [GoSlice.ofList]) hd'
+  unfold removeTag
+  rw [h1]
+  simp only [Option.map_some, h2]
+  simp [GoSlice.ofList, GoSlice.toList]
+
+example : Distinct [("a", "1"), ("b", "2"), ("c", "3")] ∧
+    removeTag [("a", "1"), ("b", "2"), ("c", "3")] "b" = some [("a", "1"), ("c", "3")] ∧
+    removeTag [("a", "1"), ("b", "2"), ("c", "3")] "z" = some [("a", "1"), ("b", "2"), ("c", "3")] := by
+  decide
+
+/-- spare capacity: a slice of length 2 over a backing array of 4 whose hidden part repeats a visible key -/
+example : (GoSlice.mk [("a", "1"), ("b", "2"), ("a", "7"), ("b", "8")] 2).removeTag "a"
+    = some ⟨[("b", "2"), ("b", "2"), ("a", "7"), ("b", "8")], 1⟩ := by decide
+
+/-! ## remove a list of keys -/
+
+theorem remove_distinct (t : Tags) (k : String) (hd : Distinct t) : Distinct (remove t k) :=
+  distinct_filter _ hd
+
+/-- `RemoveTags` (one `RemoveTag` per key) on a key-distinct list removes exactly the tags whose key is
+in the list — for any key list: absent keys, repeated keys, any order — and never panics. -/
+theorem remove_tags_spec (t : Tags) (ks : List String) (hd : Distinct t) :
+    removeTags t ks = some (removeAll t ks) := by
+  unfold removeTags
+  induction ks generalizing t with
+  | nil => simp [removeAll_nil, pure]
+  | cons k ks ih =>
+    rw [List.foldlM_cons, remove_tag_spec t k hd]
+    simp only [Option.bind_eq_bind, Option.bind_some]
+    rw [ih (remove t k) (remove_distinct t k hd), removeAll_cons]
+
+example : Distinct [("a", "1"), ("b", "2"), ("c", "3")] ∧
+    removeTags [("a", "1"), ("b", "2"), ("c", "3")] ["a", "b"] = some [("c", "3")] ∧
+    removeTags [("a", "1"), ("b", "2"), ("c", "3")] ["c", "z", "a", "c"] = some [("b", "2")] := by
+  decide
+
+/-! ## distinctness is an invariant of every operation -/
+
+theorem set_distinct (t : Tags) (tag : Tag) (hd : Distinct t) : Distinct (B6.Spec.OrderedMap.set t tag) := by
+  unfold B6.Spec.OrderedMap.set
+  split
+  · unfold Distinct
+    rw [keys_map_preserve _ (fun x => by split <;> rfl)]
+    exact hd
+  · rename_i h
+    have h' : t.any (·.1 == tag.1) = false := by simpa only [Bool.not_eq_true] using h
+    exact distinct_append_fresh hd (any_false_iff.mp h')
+
+theorem remove_all_distinct (t : Tags) (ks : List String) (hd : Distinct t) : Distinct (removeAll t ks) :=
+  distinct_filter _ hd
+
+/-- Every operation in the property's domain keeps the keys distinct (spec level). -/
+theorem distinct_preserved (m : OMap) (op : Op) (hd : Distinct m) (hok : op.ok m = true) :
+    Distinct (B6.Spec.OrderedMap.step m op).1 := by
+  cases op with
+  | get k => exact hd
+  | set e => exact set_distinct m e hd
+  | add e =>
+    simp only [Op.ok, Bool.not_eq_eq_eq_not, Bool.not_true, List.contains_eq_mem,
+      decide_eq_false_iff_not] at hok
+    refine distinct_append_fresh hd (fun x hx heq => hok ?_)
+    exact List.mem_map.mpr ⟨x, hx, heq⟩
+  | rm k => exact remove_distinct m k hd
+  | rms ks => exact remove_all_distinct m ks hd
+  | merge o =>
+    simp only [Op.ok, decide_eq_true_eq] at hok
+    exact hok
+  | clone => exact hd
+
+/-! ## refinement: one call, then any sequence of calls -/
+
+/-- One call: from a key-distinct list, for a call in the property's domain, the model (the code as
+written) does not panic and returns exactly the ordered map's new state and result. -/
+theorem step_refines (t : Tags) (op : Op) (hd : Distinct t) :
+    B6.Model.Tags.step t op = some (B6.Spec.OrderedMap.step t op) := by
+  cases op with
+  | get k => simp [B6.Model.Tags.step, B6.Spec.OrderedMap.step, get_spec]
+  | set e =>
+    simp only [B6.Model.Tags.step, B6.Spec.OrderedMap.step, modify_or_add_spec t e hd]
+    cases lookup t e.1 <;> rfl
+  | add e => rfl
+  | rm k => simp [B6.Model.Tags.step, B6.Spec.OrderedMap.step, remove_tag_spec t k hd]
+  | rms ks => simp [B6.Model.Tags.step, B6.Spec.OrderedMap.step, remove_tags_spec t ks hd]
+  | merge o => rfl
+  | clone => rfl
+
+/-- The model-level reading of `distinct_preserved`: whatever a call in the domain returns, the list
+it leaves has distinct keys. -/
+theorem distinct_preserved_model (t : Tags) (op : Op) (hd : Distinct t) (hok : op.ok t = true)
+    {t' : Tags} {o : Out} (h : B6.Model.Tags.step t op = some (t', o)) : Distinct t' := by
+  rw [step_refines t op hd] at h
+  have := distinct_preserved t op hd hok
+  simp only [Option.some.injEq] at h
+  rw [h] at this
+  exact this
+
+/-- **All operation sequences.**  From any key-distinct list, for any sequence of calls each of which
+is in the property's domain when it is made, the model run never panics, ends in the ordered map's
+state, returned exactly the ordered map's results along the way, and the final list is key-distinct. -/
+theorem ops_refine (ops : List Op) : ∀ (t : Tags), Distinct t → ValidFrom t ops →
+    B6.Model.Tags.run t ops = some (B6.Spec.OrderedMap.run t ops)
+      ∧ Distinct (B6.Spec.OrderedMap.run t ops).1 := by
+  induction ops with
+  | nil => intro t hd _; exact ⟨rfl, hd⟩
+  | cons op ops ih =>
+    intro t hd hv
+    obtain ⟨hok, hv'⟩ := hv
+    have hd' := distinct_preserved t op hd hok
+    obtain ⟨h1, h2⟩ := ih _ hd' hv'
+    refine ⟨?_, h2⟩
+    simp only [B6.Model.Tags.run, step_refines t op hd, h1, B6.Spec.OrderedMap.run]
+
+/-- non-vacuity: a sequence that uses every operation, valid from a distinct start; the last `rms`
+removes two adjacent tags and the final tag (the shapes that broke `RemoveTags` before the fix). -/
+example :
+    let t : Tags := [("a", "1"), ("b", "2"), ("c", "3")]
+    let ops : List Op := [.set ("b", "5"), .add ("d", "4"), .rm "a", .get "b", .clone,
+      .merge [("x", "1"), ("y", "2"), ("z", "3")], .set ("w", "0"), .rms ["x", "y", "q", "w"]]
+    Distinct t ∧ ValidFrom t ops ∧
+      B6.Model.Tags.run t ops = some ([("z", "3")],
+        [.modified true "2", .unit, .unit, .found (some "5"), .unit, .unit, .modified false "", .unit]) := by
+  decide
+
+/-! ## outside the domain: lists with a repeated key
+
+`RemoveTag` ranges over the original length while deleting in place.  With a repeated key the stale
+tail of the backing array can match again: the call panics (`slice bounds out of range`) or leaves a
+tag with the removed key in the list.  The property is stated for key-distinct lists only, so these
+are recorded as facts about the code, not as violations; the harness replays both on the real code. -/
+
+theorem remove_tag_duplicate_panics_counterexample :
+    ¬ Distinct [("a", "1"), ("a", "2")] ∧ removeTag [("a", "1"), ("a", "2")] "a" = none := by decide
+
+theorem remove_tag_duplicate_survives_counterexample :
+    ¬ Distinct [("a", "1"), ("a", "2"), ("b", "3")] ∧
+      removeTag [("a", "1"), ("a", "2"), ("b", "3")] "a" = some [("a", "2"), ("b", "3")] ∧
+      remove [("a", "1"), ("a", "2"), ("b", "3")] "a" = [("b", "3")] := by decide
+
+/-- so the distinctness hypothesis of `remove_tag_spec` cannot be dropped -/
+theorem remove_tag_needs_distinct_counterexample :
+    ¬ ∀ (t : Tags) (k : String), removeTag t k = some (remove t k) := by
+  intro h
+  have := h [("a", "1"), ("a", "2")] "a"
+  revert this
+  decide
 
 end B6.Props.C39
